@@ -19,12 +19,12 @@ RULE = ('case = file-based generated pipeline (JSON/YAML, uses with and without 
         'directory-type or empty result and >=1 task left uncomputed; distinct = hash(files, root, computed subset)')
 REQUIRED = ['migrations', 'migrated_results_loaded', 'uncomputed_tasks_checked', 'dry_runs_checked', 'second_migrations_checked', 'source_trees_checked',
             'multi_config_roots', 'explicit_part_roots', 'explicitly_named_configs', 'directory_results_migrated', 'empty_results_migrated',
-            'linked_directory_results_migrated', 'config_object_used_for_a_chain_before_migration']
+            'linked_directory_results_migrated', 'figure_results_migrated', 'config_object_used_for_a_chain_before_migration']
 ASSUMPTIONS = ['the migration function takes no root namespace: roots without namespace only',
                'one config file is not mounted twice (name mode addresses results by config name, two mounts would share a location by design)',
                'newly created EMPTY directories in the source are ignored (inspecting a task creates its directory)']
 BUDGET = {'quick': 60, 'thorough': 1200}
-FEAT = {'same_file_twice': False, 'dup_module_file': False, 'set_objects': False, 'data_kinds': S.DATA_KINDS + ['dir_link', 'dir_link']}
+FEAT = {'same_file_twice': False, 'dup_module_file': False, 'set_objects': False, 'data_kinds': S.DATA_KINDS + ['dir_link', 'dir_link', 'figure', 'figure']}
 DIR_KINDS = ('dir', 'continues', 'listnp', 'empty_dir', 'empty_listnp', 'dir_link')
 
 
@@ -178,6 +178,8 @@ def run_one(rng, res: CaseResult):
             res.count('migrated_results_loaded')
             if kind == 'dir_link':
                 res.count('linked_directory_results_migrated')
+            if kind == 'figure':
+                res.count('figure_results_migrated')
             if kind in DIR_KINDS:
                 res.count('directory_results_migrated')
                 nt_dir = True
